@@ -458,7 +458,7 @@ func (w *world) truncate(ts int64) {
 	if d.CpIdx != pre.CpIdx {
 		w.checkpoints++
 	}
-	w.ev("et "+zi(ts), fmt.Sprintf("ot %s %s %s %s %s %s %s", zi(int64(d.CpIdx)), recList(d.Cp), zi(int64(d.First)), zi(int64(d.Last)),
+	w.ev("et "+zi(ts)+" "+zi(w.in.fval(0)), fmt.Sprintf("ot %s %s %s %s %s %s %s", zi(int64(d.CpIdx)), recList(d.Cp), zi(int64(d.First)), zi(int64(d.Last)),
 		d.segList(), ser, w.deletedTerm()))
 	w.resync(d)
 	w.desc = append(w.desc, fmt.Sprintf("truncate(%d) gc=%d cp=%d", ts, before-len(ss), d.CpIdx))
@@ -928,7 +928,7 @@ func (g *genState) interleavedSessions() {
 	w.desc = append(w.desc, fmt.Sprintf("interleaved appenders %d,%d @%d", a.id, b.id, g.now))
 }
 
-func newWorld(outDir string, meta *gallina.Meta, oow int64, stz bool) *world {
+func newWorld(outDir string, meta *gallina.Meta, oow int64, stz, inmem bool) *world {
 	root, err := os.MkdirTemp(outDir, "c48_")
 	must(err)
 	w := &world{root: root, walDir: filepath.Join(root, "wal"), in: newInterner(), cache: segCache{}, seen: map[int]int{}, meta: meta, hasSeries: map[int64]bool{}, openRefs: map[int64]map[int64]bool{}, gcPending: map[int64]bool{}, openApps: map[int64]bool{}}
@@ -938,18 +938,19 @@ func newWorld(outDir string, meta *gallina.Meta, oow int64, stz bool) *world {
 	w.opts.StripeSize = 16
 	w.opts.OutOfOrderTimeWindow = oow
 	w.opts.EnableSTAsZeroSample = stz
+	w.opts.CheckpointFromInMemorySeries = inmem
 	w.open()
 	return w
 }
 
 func (w *world) term(idx int) string {
-	return fmt.Sprintf("mkCase %s%%Z (mko %s %s)\n %s\n %s", strconv.Itoa(idx), zi(w.opts.OutOfOrderTimeWindow), gallina.Bool(w.opts.EnableSTAsZeroSample),
+	return fmt.Sprintf("mkCase %s%%Z (mko %s %s %s)\n %s\n %s", strconv.Itoa(idx), zi(w.opts.OutOfOrderTimeWindow), gallina.Bool(w.opts.EnableSTAsZeroSample), gallina.Bool(w.opts.CheckpointFromInMemorySeries),
 		gallina.List(w.events), gallina.List(w.obs))
 }
 
 // corpus 0: two appenders touch the same new series; the one that did not create it commits first
 func corpusInterleaved(outDir string, meta *gallina.Meta) *world {
-	w := newWorld(outDir, meta, 0, false)
+	w := newWorld(outDir, meta, 0, false, false)
 	w.interleaved = true
 	l := labels.FromStrings("__name__", "shared")
 	a := w.newAppender(1, 1)
@@ -965,7 +966,7 @@ func corpusInterleaved(outDir string, meta *gallina.Meta) *world {
 
 // corpus 1: boundary timestamps and the underflow branch of minValidTime
 func corpusBoundary(outDir string, meta *gallina.Meta) *world {
-	w := newWorld(outDir, meta, 100, false)
+	w := newWorld(outDir, meta, 100, false, false)
 	l := labels.FromStrings("__name__", "edge")
 	m := labels.FromStrings("__name__", "edge2")
 	a := w.newAppender(1, 1)
@@ -994,7 +995,7 @@ func corpusBoundary(outDir string, meta *gallina.Meta) *world {
 
 // corpus 2: a series created by an open appender is garbage collected before the commit
 func corpusGCPending(outDir string, meta *gallina.Meta) *world {
-	w := newWorld(outDir, meta, 0, false)
+	w := newWorld(outDir, meta, 0, false, false)
 	w.interleaved = true
 	l := labels.FromStrings("__name__", "late")
 	k := labels.FromStrings("__name__", "keep")
@@ -1023,6 +1024,32 @@ func corpusGCPending(outDir string, meta *gallina.Meta) *world {
 	return w
 }
 
+// corpus 3: CheckpointFromInMemorySeries — the checkpoint keeps series records and last timestamps only
+// (witness of C48_inmemory_refuted: the samples at 5000 and 6000 are gone after truncate(4000))
+func corpusInMemory(outDir string, meta *gallina.Meta) *world {
+	w := newWorld(outDir, meta, 0, false, true)
+	l := labels.FromStrings("__name__", "inmem")
+	a := w.newAppender(1, 1)
+	w.append(a, sampleIn{lset: l, t: 5000, f: 1})
+	w.finish(a, true)
+	b := w.newAppender(2, 1)
+	w.append(b, sampleIn{lset: l, t: 6000, f: 2})
+	w.finish(b, true)
+	w.roll()
+	w.roll()
+	w.roll()
+	w.truncate(4000)
+	w.snapshot()
+	w.restart()
+	c := w.newAppender(3, 2)
+	w.append(c, sampleIn{lset: l, t: 6000, f: 3}) // == lastTs restored from the stand-in sample: rejected
+	w.append(c, sampleIn{lset: l, t: 6001, f: 4})
+	w.finish(c, true)
+	w.snapshot()
+	w.desc = append(w.desc, "corpus: in-memory checkpoint drops samples at or after the truncation time, keeps last timestamps")
+	return w
+}
+
 func runCase(outDir string, meta *gallina.Meta, seed uint64, idx int) *world {
 	r := gen.Fork(seed, idx)
 	oow := int64(0)
@@ -1032,7 +1059,7 @@ func runCase(outDir string, meta *gallina.Meta, seed uint64, idx int) *world {
 	case 2:
 		oow = 5000
 	}
-	w := newWorld(outDir, meta, oow, r.Chance(1, 3))
+	w := newWorld(outDir, meta, oow, r.Chance(1, 3), r.Chance(1, 6))
 	g := &genState{r: r, w: w, refs: map[int]uint64{}, now: int64(1000 + r.Intn(500)), maxTS: math.MinInt64}
 	nser := 3 + r.Intn(6)
 	for i := 0; i < nser; i++ {
@@ -1058,6 +1085,14 @@ func runCase(outDir string, meta *gallina.Meta, seed uint64, idx int) *world {
 			}
 		case k < 70:
 			ts := g.now - int64(r.Intn(1200))
+			if ss := w.db.VerifC48AllSeries(); len(ss) > 0 && r.Chance(1, 3) {
+				// boundary: exactly at (or one above) a series' last timestamp — GC keeps lastTs >= mint
+				sort.Slice(ss, func(i, j int) bool { return ss[i].Ref < ss[j].Ref })
+				if l := ss[r.Intn(len(ss))].LastTs; l > 0 && l < g.now+10 {
+					ts = l + int64(r.Intn(2))
+					w.boundary++
+				}
+			}
 			if ts < g.maxTS { // truncation times grow (see notes: C15 finding agent-lower-mint-orphan)
 				ts = g.maxTS
 			}
@@ -1088,11 +1123,11 @@ func runCase(outDir string, meta *gallina.Meta, seed uint64, idx int) *world {
 func main() {
 	f := gallina.ParseFlags()
 	meta := gallina.NewMeta("C48", f.Seed, f.Tier)
-	meta.Rule = "3 corpus histories + seeded histories of 12-35 operations on a real agent.DB; a history is non-trivial when it has at least one checkpoint-creating truncation, one restart and one out-of-order rejection; distinct by (seed, index)"
+	meta.Rule = "4 corpus histories + seeded histories of 12-35 operations on a real agent.DB; a history is non-trivial when it has at least one checkpoint-creating truncation, one restart and one out-of-order rejection; distinct by (seed, index)"
 	cf := &gallina.CaseFile{Dir: f.Out, Type: "case", PerShard: 12,
 		Preamble: "From Coq Require Import List ZArith Bool Uint63.\nFrom Verif Require Import lib.Int64 model.Checkpoint model.Agent corr.CorrC48.\nImport ListNotations.\nOpen Scope uint63_scope.\n",
 		Footer:   gallina.StdFooter}
-	n := f.Count(40, 1000)
+	n := f.Count(30, 1000)
 	emit := func(idx int, w *world, kind string) {
 		must(w.db.Close())
 		os.RemoveAll(w.root)
@@ -1101,7 +1136,7 @@ func main() {
 		if w.shape != "" {
 			shape = w.shape
 		}
-		meta.Case(idx, map[string]any{"shape": shape, "seed": f.Seed, "index": idx, "oow": w.opts.OutOfOrderTimeWindow, "stz": w.opts.EnableSTAsZeroSample, "ops": w.desc})
+		meta.Case(idx, map[string]any{"shape": shape, "seed": f.Seed, "index": idx, "oow": w.opts.OutOfOrderTimeWindow, "stz": w.opts.EnableSTAsZeroSample, "inmem": w.opts.CheckpointFromInMemorySeries, "ops": w.desc})
 		meta.Evaluations++
 		if w.checkpoints > 0 && w.restarts > 0 && w.ooo > 0 {
 			meta.Nontrivial++
@@ -1117,6 +1152,9 @@ func main() {
 		meta.Dist["exemplars-accepted"] += w.exAccepted
 		meta.Dist["exemplars-not-accepted"] += w.exRejected
 		meta.Dist["orphans-at-commit"] += w.orphansAtCommit
+		if w.opts.CheckpointFromInMemorySeries {
+			meta.Hit("history-inmemory-checkpoint")
+		}
 		if w.interleaved {
 			meta.Hit("history-interleaved")
 		} else {
@@ -1126,7 +1164,8 @@ func main() {
 	emit(0, corpusInterleaved(f.Out, meta), "corpus")
 	emit(1, corpusBoundary(f.Out, meta), "corpus")
 	emit(2, corpusGCPending(f.Out, meta), "corpus")
-	for i := 3; i < n+3; i++ {
+	emit(3, corpusInMemory(f.Out, meta), "corpus")
+	for i := 4; i < n+4; i++ {
 		emit(i, runCase(f.Out, meta, f.Seed, i), "history")
 	}
 	cf.Flush()
